@@ -873,6 +873,16 @@ class DetFuture:
         return f'{self._id}[{self.label}]'
 
     def done(self):
+        # concurrent.futures.Future.done() takes the future's condition lock: a synchronisation
+        # operation, hence a scheduling point - one before the state is read and one after it was
+        # read (what the caller does with a stale answer is where check-then-act races live).
+        # Both are skipped at coarse granularity.
+        s = self._sched
+        if s is not None and not s.inline and not s.aborting and s.current is not None:
+            s.point('fut.done', self)
+            r = self._state == 'FINISHED'
+            s.point('fut.done.ret', self)
+            return r
         return self._state == 'FINISHED'
 
     def _is_done(self):
@@ -1173,5 +1183,5 @@ class DetClock:
 # no synchronisation object; what they read (coordinator fields) is covered by
 # the neighbouring points.  'fine' granularity preempts everywhere.
 COARSE_SKIP = frozenset(['body.read', 'stream.read', 'src.read', 'fs.read',
-                         'fut.add_cb', 'rd', 'cb.progress', 'sem.released',
+                         'fut.add_cb', 'fut.done', 'fut.done.ret', 'rd', 'cb.progress', 'sem.released',
                          'fs.size', 'fs.seek'])
